@@ -21,6 +21,7 @@ import Driver.Handshake
 import Driver.HandshakeAuth
 import Driver.X509Ext
 import Driver.GCMBytes
+import Driver.SessionState
 open Gmsm
 
 def dispatch (toks : List String) : String :=
@@ -58,6 +59,9 @@ def dispatch (toks : List String) : String :=
     | some r => r
     | none =>
     match Driver.gcmBytesDispatch toks with
+    | some r => r
+    | none =>
+    match Driver.sessionStateDispatch toks with
     | some r => r
     | none =>
     match toks with
